@@ -147,7 +147,7 @@ def write_replay(prop, seed, rec):
         miri_seed=job.get("miri_seed"),
         miri_cpus=job.get("miri_cpus"),
         kind=rec.get("kind"),
-        detail=rec.get("detail", rec.get("excerpt", ""))[-4000:],
+        detail=rec.get("detail", rec.get("excerpt", ""))[:5000],
         case=rec.get("desc", ""),
         site=rec.get("site", ""),
     )
@@ -347,7 +347,7 @@ def finish(prop, tier, seed, plan, shards, inconclusive, t0, tmpdir):
             print(f"VIOLATION property={prop} replay={path}")
             print(f"  engine={eng} kind={kind} cases={cnt}")
             d = (v.get("detail") or "")
-            print("  detail: " + d[-1200:].replace("\n", "\n    "))
+            print("  detail: " + d[:2500].replace("\n", "\n    "))
             if v.get("desc"):
                 print("  case: " + v["desc"][:1200])
         return 1
